@@ -29,7 +29,7 @@ def run(ctx):
         muts += ["MC_Brutal_mutConsume.cfg", "MC_Brutal_mutFloor.cfg"]
     for m in muts:
         ctx.tlc_mc("MC_Brutal", m, expect_violation=True)
-    scns = ctx.tlc_gen("MC_Brutal", "Gen_Brutal.cfg", num=2500 if T else 250, depth=17)
+    scns = ctx.tlc_gen("MC_Brutal", "Gen_Brutal.cfg", num=2500 if T else 120, depth=17)
     ctx.write_scenarios("brutal", scns)
     ctx.go_test("core", "./internal/congestion/brutal/", "TestVerif_C11$", ["harness/core/internal/congestion/brutal/c11_test.go"])
     ctx.validate("Prop_C11", sig=sig, distinct=distinct)
